@@ -302,8 +302,11 @@ pub fn hostile_compressed(rng: &mut Rng, which: u64) -> (u8, Vec<u8>, &'static s
         }
         2 => {
             // chunk length beyond the remaining input
+            // (most of them by 1..4 bytes - less than a length field -, the rest by up to 1000)
             let blk = vec![1u8, 0x00, b'a'];
-            (2, snappy_stream(&[(blk.len() as i32 + 1 + rng.below(1000) as i32, blk)]), "snappy-chunk-beyond-input")
+            let r = rng.below(1000) as i32;
+            let over = [1, 2, 3, 4, 1, 4, 5, 1 + r][(r % 8) as usize];
+            (2, snappy_stream(&[(blk.len() as i32 + over, blk)]), "snappy-chunk-beyond-input")
         }
         3 => (2, snappy_stream(&[(i32::MAX, vec![1, 0, b'a'])]), "snappy-chunk-2^31-1"),
         4 => (2, snappy_stream(&[(-(1 + rng.below(5) as i32), vec![1, 0, b'a'])]), "snappy-chunk-negative"),
